@@ -3,7 +3,8 @@
     types; positive, N, Z and nat stay the extracted inductive types. *)
 From Coq Require Import Extraction ExtrOcamlBasic.
 From E57 Require Import Base.Prelude Model.Crc Model.Device Model.PagedWriter Model.PagedReader Spec.PageSpec
-  Model.BsWrite Model.BsRead Model.Record Spec.BitSpec.
+  Model.BsWrite Model.BsRead Model.Record Spec.BitSpec
+  Model.QueueReader Model.PcWriter Model.FileBin Spec.FormatSpec.
 
 Extraction Language OCaml.
 Separate Extraction
@@ -17,4 +18,8 @@ Separate Extraction
   BsRead.bsr_new BsRead.bsr_append BsRead.bsr_extract BsRead.bsr_available
   Record.bit_size Record.dtype_write Record.unpack_type Record.write_values Record.feed_chunks Record.value_matches
   BitSpec.spec_bit_size BitSpec.spec_stream_bytes BitSpec.spec_decode_stream BitSpec.in_range BitSpec.type_ok
+  QueueReader.raw_new QueueReader.raw_next QueueReader.qr_available
+  PcWriter.get_max_packet_points PcWriter.pcw_new PcWriter.pcw_add_point PcWriter.pcw_finalize
+  FileBin.writer_init FileBin.writer_finalize FileBin.items_write FileBin.item_write FileBin.blob_read FileBin.reader_open FileBin.validate_crc FileBin.raw_xml
+  FormatSpec.encode_section FormatSpec.decode_section FormatSpec.legal FormatSpec.scene_ok
   PageSpec.paginate PageSpec.strip_crc PageSpec.all_pages_valid PageSpec.ls_init PageSpec.ls_run PageSpec.lr_run.
